@@ -1,6 +1,7 @@
 """Registry of Kani harnesses: which property, where the harness lives, the bound
 it states, what it asserts, and its resource caps. run.py executes these."""
 
+MEMCMP_ = ["--unwindset", "memcmp.0:40"]
 BASE_STUBS_EXT = [
     "alloc::fmt::format",
     "candid::Error::msg",
@@ -20,6 +21,7 @@ BASE_STUBS_CANDID = [
 ]
 BASE_STUBS_PARSER = [
     "alloc::fmt::format",
+    "<::anyhow::Error as std::ops::Drop>::drop",
 ]
 
 
@@ -47,12 +49,14 @@ class H:
             return f"{self.module}::{self.name}"
         if self.loc == "candid":
             return f"de::verif_kani::{self.module}::{self.name}"
-        return f"random::verif_kani::{self.module}::{self.name}" if self.module else f"random::verif_kani::{self.name}"
+        return f"random::verif_kani::{self.name}"
 
     @property
     def playback_prelude(self):
         if self.loc == "ext":
             return f" #[allow(unused_imports)] use crate::{self.module}::*;"
+        if self.loc == "parser":
+            return " #[allow(unused_imports)] use super::*;"
         return f" #[allow(unused_imports)] use super::{self.module}::*;"
 
 
@@ -93,6 +97,28 @@ add("C09", "c09_fast_u64_le11", "candid", "de_c09",
 add("C09", "c09_fast_i64_le11", "candid", "de_c09",
     "any buffer of 0..=11 symbolic bytes, any start offset; unwind 13",
     "Deserializer::try_read_leb_i64: same, signed", est_s=60)
+BN_DEC = ("Nat/Int::decode with the num-bigint boundary recorded: Ok, consumes exactly the string, and the mathematical value "
+          "handed to num-bigint (From<u64/i64>, or from_radix_le digits base 128 [minus 2^(7n) iff the sign bit is set]) equals the "
+          "(S)LEB128 value computed by the oracle; which constructor is used is not asserted")
+for n in (1, 5, 9, 10, 11, 14, 18):
+    add("C09", f"c09_nat_dec_len{n}", "ext", "c09_bignum", f"all LEB128 strings of exactly {n} bytes (continuation bits forced)",
+        BN_DEC, quick=n in (9, 10, 11), est_s=60,
+        stubs=["num_bigint::BigUint::from_radix_le", "<num_bigint::BigUint as std::convert::From<u64>>::from"])
+    add("C09", f"c09_int_dec_len{n}", "ext", "c09_bignum", f"all SLEB128 strings of exactly {n} bytes (continuation bits forced)",
+        BN_DEC, quick=n in (9, 10, 11), est_s=60,
+        stubs=["num_bigint::BigUint::from_radix_le", "<num_bigint::BigInt as std::convert::From<i64>>::from"])
+for n in range(9, 17):
+    add("C09", f"c09_int_enc_big{n}", "ext", "c09_bignum",
+        f"all integers whose minimal two's-complement form has exactly {n} bytes (to_i64 -> None, to_signed_bytes_le returns "
+        f"the minimal bytes by contract)",
+        "Int::encode (hand-written 8->7 bit repacking) emits exactly the minimal SLEB128 of the value", quick=n in (9, 10, 16),
+        est_s=60, stubs=["num_bigint::BigInt::to_signed_bytes_le"])
+for n in (10, 11, 14, 19):
+    add("C09", f"c09_nat_enc_big{n}", "ext", "c09_bignum",
+        f"all naturals > u64::MAX with exactly {n} base-128 digits (to_u64 -> None, to_radix_le returns the digits by contract)",
+        "Nat::encode emits exactly the minimal LEB128 of the value", quick=n in (10, 19), est_s=60,
+        stubs=["num_bigint::BigUint::to_radix_le"])
+
 U128_WHAT = ("deserialize_u128 on constructed decoder state: Ok => wire is nat, value == LEB128 value, bytes consumed == "
              "string; in-range nat without quota => Ok; cursor never beyond input; no panic")
 I128_WHAT = ("deserialize_i128: Ok => wire is int (SLEB128 value) or nat (LEB128 value <= i128::MAX), bytes consumed == "
@@ -140,6 +166,13 @@ for n, d, q in (("c15_label_n2_id", "Named(2 symbolic ASCII bytes) vs Id(any u32
                 ("c15_label_n1_n2", "Named(1 byte) vs Named(2 bytes)", True),
                 ("c15_label_id_unnamed", "Id(any u32) vs Unnamed(any u32)", True)):
     add("C15", n, "ext", "c15_hash", d, LABEL_WHAT, quick=q, est_s=200, cap_s=2400)
+add("C15", "c15_label_collision_suffix2", "ext", "c15_hash",
+    "Named(\"lraubw\") vs Named(\"qdyh\" + 2 symbolic lower-case letters): the solver must find the colliding spelling",
+    LABEL_WHAT + "; two different names with one id are equal, hash equally and are rejected by check_unique", est_s=120, cap_s=2400)
+add("C15", "c15_label_collision_suffix4", "ext", "c15_hash",
+    "Named(\"lraubw\") vs Named(\"qd\" + 4 symbolic lower-case letters)",
+    LABEL_WHAT + "; two different names with one id are equal, hash equally and are rejected by check_unique", quick=False,
+    est_s=600, cap_s=3600)
 for n, d in (("c15_check_unique_n2_id_u", "[Named(2 bytes), Id(any), Unnamed(any)] sorted by id"),
              ("c15_check_unique_id_n1_n2", "[Id(any), Named(1 byte), Named(2 bytes)] sorted by id")):
     add("C15", n, "ext", "c15_hash", d,
@@ -153,13 +186,33 @@ for n in (3, 6):
     add("C16", f"c16_crc_ref_len{n}", "ext", "c16_principal", f"all {n}-byte inputs",
         "crc32fast::hash (baseline table implementation) == bitwise CRC-32 from the definition", est_s=60, stubs=CRC_STUB,
         quick=(n == 3))
-for n in (0, 1, 2, 3, 4, 5, 6, 9, 10, 29):
+for n in (0, 1, 2, 3, 4, 5, 6, 9, 10):
     add("C16", f"c16_display_len{n}", "ext", "c16_principal", f"all principals of exactly {n} bytes",
         "<Principal as Display>::fmt on a fixed sink == reference text: lower-case RFC4648 base32 of CRC32(bytes) big-endian ++ "
         "bytes, '-' after every 5th character and never last (reference base32 and bitwise CRC written from the spec)",
-        quick=n in (0, 1, 4, 5, 6), est_s=120, cap_s=3600, stubs=CRC_STUB)
+        quick=n in (0, 1, 2), est_s=300, cap_s=3600, stubs=CRC_STUB)
 add("C16", "c16_ctor_len", "ext", "c16_principal", "all slices of symbolic length 0..=40",
     "try_from_slice is Ok exactly for length <= 29 and stores exactly the input bytes and length", est_s=120)
+
+# ---------------------------------------------------------------------------
+# C01 / C03: round trip through the real serializer, reference encoder and real decoder
+RT_WHAT = ("v fully symbolic: real ValueSerializer output == reference encoding written from the spec's M rules, byte for "
+           "byte (C03); decoding those bytes at the same Candid type returns Ok(v') with v' == v (floats by bits) and "
+           "consumes every byte (C01)")
+RT = [("bool", "all bool"), ("u8", "all u8"), ("u16", "all u16"), ("u32", "all u32"), ("u64", "all u64"), ("i8", "all i8"),
+      ("i16", "all i16"), ("i32", "all i32"), ("i64", "all i64"), ("f32", "all f32 bit patterns incl. NaNs"),
+      ("f64", "all f64 bit patterns incl. NaNs"), ("unit", "()"), ("string0", "empty String"),
+      ("string2", "all valid UTF-8 Strings of exactly 2 bytes"), ("string3", "all valid UTF-8 Strings of exactly 3 bytes"),
+      ("opt_u8", "all Option<u8>"), ("opt_opt_bool", "all Option<Option<bool>>"),
+      ("opt_string", "None | Some(2-byte UTF-8 String)"), ("tuple_u8_i32", "all (u8, i32)"),
+      ("tuple_bool_u16", "all (bool, u16)"), ("vec_u8_2", "all Vec<u8> of 2 elements"),
+      ("vec_u16_2", "all Vec<u16> of 2 elements (bulk little-endian path)"), ("vec_i64_1", "all Vec<i64> of 1 element"),
+      ("vec_bool_2", "all Vec<bool> of 2 elements"), ("vec_f32_1", "all Vec<f32> of 1 element"),
+      ("vec_empty_u32", "empty Vec<u32>"), ("vec_opt_u8_2", "all Vec<Option<u8>> of 2 elements (element-wise path)"),
+      ("vec_string_1", "Vec<String> of one 2-byte string")]
+RT_QUICK = {"bool", "u16", "i64", "f64", "string2", "opt_u8", "tuple_u8_i32", "vec_u16_2", "vec_bool_2", "vec_opt_u8_2"}
+for n, d in RT:
+    add(["C01", "C03"], f"c01_rt_{n}", "candid", "de_rt", d, RT_WHAT, quick=n in RT_QUICK, est_s=90, cbmc_args=MEMCMP_)
 
 MEMCMP = ["--unwindset", "memcmp.0:40"]
 PRIMS = ["null", "bool", "nat", "int", "nat8", "nat16", "nat32", "nat64", "int8", "int16", "int32", "int64", "f32", "f64",
@@ -188,10 +241,76 @@ for n, d in (("c08_opt_u8_wo_text_n2", "expected opt nat8, wire opt text, 2 valu
     add(["C08", "C06", "C07"], n, "candid", "de_opt", d + "; symbolic quotas", OPT_WHAT, quick=n in QUICK_OPT, est_s=90,
         cbmc_args=MEMCMP)
 
+# ---------------------------------------------------------------------------
+# specialised decoding paths (C08/C06) and three-run quota harnesses (C07)
+BYTES_WHAT = ("expected vec nat8: Ok => wire is vec nat8 (the only wire type the generic rules accept), bytes == wire payload, "
+              "exact consumption; well-formed blob without quota => Ok; no panic; cursor <= len")
+for tgt, T in (("bytes", "&[u8] (deserialize_bytes, borrowed)"), ("bytebuf", "serde_bytes::ByteBuf (deserialize_byte_buf, owned)")):
+    for w in ("blob", "text", "vec_int8", "vec_bool") + (("nat8",) if tgt == "bytes" else ()):
+        add(["C08", "C06"], f"c08_{tgt}_w_{w}", "candid", "de_fast",
+            f"{T}; wire type {w} (concrete, pooled); 4 symbolic bytes with a one-byte length prefix; symbolic quotas",
+            BYTES_WHAT, quick=w in ("blob", "text"), est_s=120, cbmc_args=MEMCMP)
+for w, q in (("nat16", True), ("int16", True), ("nat8", False), ("nat32", False), ("bool", False)):
+    add(["C08", "C06", "C07"], f"c08_vec_u16_w_{w}", "candid", "de_fast",
+        f"Vec<u16> at expected vec nat16, wire vec {w}; element count 2 (constant length byte), 4 symbolic payload bytes; symbolic quotas",
+        "Ok => wire element type is nat16, elements == little-endian wire bytes (bulk path), consumed 5 bytes, elements charged; "
+        "well-formed vec nat16 without quota => Ok", quick=q, est_s=120, cbmc_args=MEMCMP)
+add(["C06", "C08"], "c06_vec_u16_hostile_len", "candid", "de_fast",
+    "vec nat16 with a symbolic (possibly huge / padded) LEB128 length prefix in 10 symbolic bytes, non-allocating visitor",
+    "no panic / arithmetic overflow for any length; Ok exactly when length*2 fits the remaining input, then count and "
+    "consumption match; otherwise Err", est_s=200, cap_s=2400, cbmc_args=MEMCMP)
+add(["C06", "C07"], "c06_vec_null_bomb", "candid", "de_fast",
+    "vec null with a symbolic length prefix (10 symbolic bytes), decoding quota symbolic <= 20",
+    "zero-sized elements are not free: a successful decode materialised at most quota elements; space bombs are stopped",
+    est_s=200, cap_s=2400, cbmc_args=MEMCMP)
+MAP_WHAT = ("one map entry pulled through Compound's MapAccess by a light-weight (&str,&str) visitor at expected vec record{text;text}: "
+            "Ok => wire entry type is record{text;text}; key and value are the wire texts; exact consumption; well-formed entry "
+            "without quota => Ok")
+for w, q in (("text_text", True), ("text_blob", True), ("text_nat8", False), ("blob_text", False), ("text_vecint8", False)):
+    add(["C08", "C06"], f"c08_map_tt_w_{w}", "candid", "de_fast",
+        f"wire vec record {{{w.replace('_', '; ')}}}; entry count 1; 5 symbolic payload bytes; symbolic quotas", MAP_WHAT,
+        quick=q, est_s=300, cap_s=2400, cbmc_args=MEMCMP)
+add(["C08", "C06"], "c08_map_text_u8", "candid", "de_fast", "map<text,nat8>, one entry, 4 symbolic payload bytes",
+    "after a text key read through the fast path the value is read at nat8: entry == wire bytes, exact consumption",
+    est_s=200, cap_s=2400, cbmc_args=MEMCMP)
+BV_WHAT = "Ok <=> count <= MAX_LEN and every element <= MAX_ELEM and sum <= MAX_TOTAL (and the vector fits the input)"
+add("C08", "c08_bvec_u8_len3_total8", "candid", "de_fast", "BoundedVec<3,8,1,u8>, symbolic count 0..127 in 7 bytes", BV_WHAT, est_s=200,
+    cap_s=2400, cbmc_args=MEMCMP)
+add("C08", "c08_bvec_u8_len8_total3", "candid", "de_fast", "BoundedVec<8,3,1,u8>, symbolic count 0..127 in 7 bytes", BV_WHAT, est_s=200,
+    cap_s=2400, cbmc_args=MEMCMP)
+add("C08", "c08_bvec_u64_total16", "candid", "de_fast", "BoundedVec<4,16,8,u64>, symbolic count 0..3, 24 symbolic payload bytes",
+    BV_WHAT + " — two u64 reach the total limit exactly", est_s=200, cap_s=2400, cbmc_args=MEMCMP)
+Q3_WHAT = ("three decoder runs on the same symbolic bytes: unmetered / quotas (dq,sq) / quotas (dq',sq') >= : metered Ok => same "
+           "value and cursor as unmetered; success monotone in both quotas; compute_cost equal in both metered runs; cost >= "
+           "values materialised or skipped; cost <= documented model (+ small constant, 50x for skipped data); a decode never "
+           "succeeds with a quota below its own cost; an honest message is rejected only if a quota is below the measured cost")
+for n, d, q in (("u32", "u32 at nat32, 4 bytes", True), ("str", "&str at text, 3 bytes", True),
+                ("opt_same", "Option<u8>, wire opt nat8, 2 bytes", True),
+                ("opt_skip", "Option<u8>, wire opt bool (back-tracking, skipped payload, 50x penalty), 2 bytes", True),
+                ("plain_skip", "Option<u8>, wire nat16 (skipped), 2 bytes", False),
+                ("tuple", "(u8,bool) at record{0:nat8;1:bool}, 2 bytes", False)):
+    add("C07", f"c07_q3_{n}", "candid", "de_quota", d + "; all quota pairs (Option<usize> x Option<usize>) twice", Q3_WHAT, quick=q,
+        est_s=300, cap_s=2400, cbmc_args=MEMCMP)
+
+# ---------------------------------------------------------------------------
+# C20 (kernel claim)
+for t in ("u8", "i8", "u16", "i32", "u64", "i64", "i128", "u128"):
+    add("C20", f"c20_num_{t}", "parser", "", f"all configured ranges Option<(i64,i64)> x all 16-byte entropy strings, T = {t}",
+        "random::arbitrary_num::<T>: Err or a value inside T and inside the range clamped to T; no panic for any range "
+        "(incl. l > r)", quick=t in ("u8", "i64", "i128"), est_s=60)
+for n in (0, 1, 2, 3):
+    add("C20", f"c20_variant_w{n}", "parser", "", f"weights slice of length {n}, each weight symbolic in 0..=2^20, 8 entropy bytes",
+        "random::arbitrary_variant: Err or the index of a non-zero weight; no panic for empty or all-zero weights", est_s=60)
+add("C20", "c20_len_width", "parser", "", "width Option<usize> symbolic, 8 entropy bytes",
+    "random::arbitrary_len: Ok(n) => n <= width (or <= available entropy); no panic", est_s=60)
+
 OUTSIDE = {
+    "C20": "most of the property: type-directed generation, depth/size budget and termination on recursive types, text via the "
+           "fake crate, config parsing, 'annotates unchanged / encodes' (all need IDLValue trees)",
     "C16": "the parsing direction (Principal::from_text, round trip, 'every accepted text is canonical'): did not finish "
            "symbolic execution within 20 min in two variants; the pclmulqdq CRC path (baseline verified instead); serde "
-           "impls; the wire cap of 29 bytes (binread reader); payload lengths not instantiated",
+           "impls; the wire cap of 29 bytes (binread reader); payload lengths not instantiated (29 bytes ran out of memory at "
+           "20 GB; lengths 0-6, 9, 10 cover every length mod 5)",
     "C15": "names longer than the byte bound; the derive macro's compile-time sort and the record!/variant! macros (macro "
            "expansion is not symbolically executable; the functions they call are covered); the text parser's and the binary "
            "header's duplicate checks (lexer/parser/binread unreachable)",
